@@ -1079,6 +1079,9 @@ class Interp(object):
             idx = ('slice', lo, hi, st)
         else:
             idx = self.ev(e.slice, frame)
+            if isinstance(idx, Obj) and idx.cls == 'slice' and not isinstance(base, (list, tuple, str, bytes)):
+                # x[slice(a, b)] on an abstract sequence is x[a:b]
+                idx = ('slice', idx.fields.get('start'), idx.fields.get('stop'), idx.fields.get('step'))
         r = self.on_subscript(base, idx, e, frame)
         if r is not self.NOT_HANDLED:
             return r
@@ -1884,6 +1887,8 @@ class Interp(object):
             six_types = {'text_type': 'str', 'binary_type': 'bytes', 'string_types': 'str', 'integer_types': 'int'}
             if t.name in six_types:
                 names = [six_types[t.name]]
+        if names is None and isinstance(t, Top) and t.kind in ('import:numbers.Integral', 'import:numbers.Number', 'import:numbers.Real'):
+            names = ['Integral'] if t.kind.endswith('Integral') else None
         if names is None:
             # builtin type names come through global_name as Top('name:int')
             if isinstance(t, Top) and t.kind.startswith('name:'):
